@@ -1,5 +1,5 @@
 (* Proofs about Model/Prices.v. *)
-From LedgerV Require Import Base.Prelude Gen.PriceMemo Model.Prices.
+From LedgerV Require Import Base.Prelude Gen.PriceMemo Gen.CostDate Model.Prices.
 From Coq Require Import Permutation.
 Local Open Scope Z_scope.
 
@@ -929,3 +929,28 @@ Proof.
   - destruct (nearest_spec _ _ _ _ _ _ _ H) as [H'|H']; [discriminate | exact H'].
   - apply (nearest_max _ _ _ _ _ _ _ H).
 Qed.
+
+(* ------------------------------------------------------------------ the date of a cost price *)
+(* the source fact (regenerated from xact.cc): finalize dates a cost by the transaction *)
+Lemma cost_dated_by_xact : finalize_cost_date = CostXactDate.
+Proof. reflexivity. Qed.
+
+Lemma cost_entry_when d aq ac total cq cc virt e :
+  entry_of (ICost d aq ac total cq cc virt) = Some e -> e_when e = midnight (x_prim d).
+Proof.
+  unfold entry_of, entry_of_with. rewrite cost_dated_by_xact. cbn [cost_day].
+  destruct (virt || _); [discriminate|]. intros H. injection H as <-. reflexivity.
+Qed.
+
+Lemma implied_entry_when d xq xc yq yc e :
+  entry_of (IImplied d xq xc yq yc) = Some e -> e_when e = midnight (x_prim d).
+Proof.
+  unfold entry_of, entry_of_with. rewrite cost_dated_by_xact. cbn [cost_day].
+  destruct (Qnum _ =? 0); [discriminate|]. intros H. injection H as <-. reflexivity.
+Qed.
+
+(* whatever dates the posting itself carries, the recorded price is the same *)
+Lemma cost_entry_ignores_posting_dates xp xa pp pa pp' pa' aq ac total cq cc virt :
+  entry_of (ICost (mkDates xp xa pp pa) aq ac total cq cc virt) =
+  entry_of (ICost (mkDates xp xa pp' pa') aq ac total cq cc virt).
+Proof. unfold entry_of, entry_of_with. rewrite cost_dated_by_xact. reflexivity. Qed.
